@@ -128,6 +128,37 @@ func sweepLenAndSum(R *vlib.Out, prop string) {
 			}
 		}
 	}
+	// identical neighbours: group entries (top level and nested) that are byte-identical on the wire, followed by
+	// a different one
+	{
+		t := &tmpl{BS: "8", BL: "9", MT: "35", CS: "10", Begin: "FIX.4.4", MsgType: "0", Hdr: []*node{},
+			Body: []*node{{Kind: 'g', Tag: "146", Kids: []*node{{Kind: 'k', Tag: "55", Typ: "String"}, {Kind: 'k', Tag: "44", Typ: "Int"},
+				{Kind: 'g', Tag: "711", Kids: []*node{{Kind: 'k', Tag: "311", Typ: "String"}, {Kind: 'k', Tag: "312", Typ: "Int"}}}}},
+				{Kind: 'k', Tag: "58", Typ: "String"}}, Trl: []*node{}}
+		leaf := func(v string) *pop { return &pop{Set: true, Val: v, Route: 'c'} }
+		in := func(a, b string) []*pop { return []*pop{leaf(a), leaf(b)} }
+		out := func(a, b string, nested ...[]*pop) []*pop {
+			g := &pop{}
+			if len(nested) > 0 {
+				g = &pop{Entries: nested}
+			}
+			return []*pop{leaf(a), leaf(b), g}
+		}
+		cases := [][][]*pop{
+			{out("A", "1"), out("A", "1"), out("B", "2")},
+			{out("A", "1", in("x", "7"), in("x", "7")), out("B", "2", in("y", "8"))},
+			{out("A", "1", in("x", "7"), in("x", "7"), in("z", "9")), out("A", "1", in("x", "7"), in("x", "7"), in("z", "9")), out("B", "2")},
+			{out("A", "1", in("x", "7")), out("A", "1", in("x", "7")), out("A", "1", in("x", "7"))},
+		}
+		for ci, entries := range cases {
+			if !vlib.Mine(ci) {
+				continue
+			}
+			t.Unit = 4000000 + ci
+			checkSer(R, prop, t, nil, []*pop{{Entries: entries}, leaf("after")}, nil)
+		}
+		R.Bounds["identical_neighbour_entries"] = len(cases)
+	}
 	// float sweep: results of ordinary arithmetic need 16 or 17 significant digits (i*0.1, i/7, i*1.1, prices with
 	// an accumulated error); a hand-written fast path of the parser is wrong for some of them by one unit in the
 	// last place
